@@ -17,6 +17,10 @@ claim("C01", "path-sensitive SSA fact walk + closed-world field/call-site enumer
       "Structural necessary condition, decided for all inputs/configurations at once: every protected sink is gated by getAuthenticatedSession err==nil; its nil-error returns need bypass or the full authorisation conjunction; RequestScope.Session has a closed writer set fed only by verified getters; stores/tickets succeed only behind the signature check; session-consuming routes go through sessionChain. Level 'other': a static argument over code shape, not a behavioural proof.",
       TRUST + " Not decided: that valid credentials always verify; crypto correctness; validator string semantics.", "DESIGN.md §5 C01")
 
+claim("C03", "path-sensitive SSA fact walk + sibling agreement",
+      "Structural necessary condition of the state<->CSRF-cookie binding, for all inputs/configurations: every saving path of the callback passed decodeState -> LoadCSRFCookie(name derived from that nonce) -> CheckOAuthState(that nonce) on that object; the cookie loader/decoder accept only a same-named, Validate-ok cookie; start side sends the hashes of the object whose cookie it set; name derivations and state encoding agree. Level 'other'.",
+      TRUST + " Not decided: the 'succeeds' direction and concurrent-login orderings.", "DESIGN.md §5 C03")
+
 for i in range(2, 21):
     pid = "C%02d" % i
     if pid not in T:
